@@ -9,6 +9,7 @@ seeds = sys.argv[1:] or sorted(glob.glob(os.path.join(V, "seeded", "*", "")))
 wt = tempfile.mkdtemp(prefix="oxidd-matrix-")
 os.rmdir(wt)
 subprocess.check_call(["git", "-C", "/repo", "worktree", "add", "--detach", wt, "HEAD", "-q"])
+head = subprocess.check_output(["git", "-C", "/repo", "rev-parse", "--short", "HEAD"], text=True).strip()
 ev = tempfile.mkdtemp(prefix="oxidd-matrix-ev-")
 env = dict(os.environ, OXIDD_REPO=wt, VERIF_EVIDENCE_DIR=ev)
 mpath = os.path.join(V, "seeded", "MATRIX.json")
@@ -24,13 +25,19 @@ try:
         if r.returncode != 0:
             matrix[name] = {"error": "patch does not apply: " + r.stderr[:200]}
             continue
-        fired = {}
+        fired, brk = {}, {}
         for p in props:
             r = subprocess.run([os.path.join(V, "check"), p, "--tier", "quick"], capture_output=True, text=True, env=env, cwd=V)
             keys = [l.split("#", 1)[1] for l in r.stdout.splitlines() if l.startswith("VIOLATION") and "#" in l]
+            broken = [k for k in keys if k.startswith("CHECK-BROKEN")]
+            keys = [k for k in keys if not k.startswith("CHECK-BROKEN")]
+            if broken:
+                brk[p] = broken[:1]
             if keys:
                 fired[p] = keys[:4]
-        matrix[name] = {"fired": fired}
+        matrix[name] = {"fired": fired, "repo_head": head}
+        if brk:
+            matrix[name]["check_could_not_run"] = brk
         subprocess.check_call(["git", "-C", wt, "checkout", "--", "."])
         print(name, "->", {k: len(v) for k, v in fired.items()} or "MISSED", flush=True)
         json.dump(matrix, open(mpath, "w"), indent=1, sort_keys=True)
